@@ -153,6 +153,9 @@ func validateServerConfig(config *appctlpb.ServerConfig) error {
 	if config == nil {
 		return fmt.Errorf("server config is nil")
 	}
+	if config.GetMtu() != 0 && (config.GetMtu() < 1280 || config.GetMtu() > 1500) {
+		return fmt.Errorf("MTU value %d is out of range, valid range is [1280, 1500]", config.GetMtu())
+	}
 	if len(config.GetPortBindings()) == 0 {
 		return fmt.Errorf("server port bindings are not set")
 	}
